@@ -266,6 +266,11 @@ fn collect_cached_files(cache_dir: &Path) -> Result<(Vec<CachedFile>, u64)> {
             if meta.is_dir() {
                 // Don't count subdirectories, we never delete them.
                 count -= 1;
+            } else if entry.file_name().to_string_lossy().starts_with('.') {
+                // Names that start with a dot are never valid cache
+                // keys: they belong to Kismet's own `.kismet*`
+                // namespace or to the application.  Never evict them.
+                count -= 1;
             } else {
                 cache.push(CachedFile::new(entry, &meta));
             }
